@@ -242,6 +242,10 @@ struct EncRun {
     nontrivial = true;
     if (ret == 0 && at >= 1) {
       vorbis_analysis_init(&vd, &vi); have_vd = true; vorbis_block_init(&vd, &vb); have_vb = true;
+      // one vorbis_info serving more than one encoder instance, one after the other or side by side (the decode side does this routinely)
+      int multi = (int)er->i("multi", 0);
+      if (multi == 1) { vorbis_block_clear(&vb); vorbis_dsp_clear(&vd); vorbis_analysis_init(&vd, &vi); vorbis_block_init(&vd, &vb); g_stats.inc("probe.encoder_reinit_same_info"); }
+      if (multi == 2) { vorbis_dsp_state vd2; vorbis_block vb2; vorbis_analysis_init(&vd2, &vi); vorbis_block_init(&vd2, &vb2); vorbis_block_clear(&vb2); vorbis_dsp_clear(&vd2); g_stats.inc("probe.two_encoders_one_info"); }
       if (at >= 2) { vorbis_comment_init(&vc); have_vc = true; vorbis_comment_add_tag(&vc, "A", "b"); ogg_packet a, b, c; vorbis_analysis_headerout(&vd, &vc, &a, &b, &c); h.i64(a.bytes + b.bytes + c.bytes); }
       if (at >= 3) {
         Signal sig(sigr); int64_t done = 0; int64_t stop = at == 3 ? N / 2 : N;
@@ -317,6 +321,7 @@ struct EncGen {
       m.set("mode", "lifecycle"); Rec &e = p.add("enc"); enc_common(e, true);
       if (g.chance(0.2)) { double u = g.unit(); if (u < 0.25) e.set("rate", g.chance(0.5) ? 0 : -44100); else if (u < 0.5) e.set("ch", g.chance(0.5) ? 0 : 256 + (int64_t)g.below(1000)); else if (u < 0.75) e.setf("q", g.chance(0.5) ? -5.0 : 7.5); else e.set("nom", g.chance(0.5) ? 1 : 2000000000); }
       int ch = (int)e.i("ch");
+      if (g.chance(0.25)) e.set("multi", (int64_t)g.range(1, 2));
       e.set("abandon", (int64_t)g.below(5)).set("twice", (int64_t)g.below(2)).set("n", (int64_t)(ch > 8 ? g.range(0, 3000) : g.range(0, 20000))).set("poison", (int64_t)g.below(5)).setu("pseed", g.below(100000));
     }
     return p;
